@@ -4,7 +4,7 @@ import json, glob, os, re
 rows = []
 for f in sorted(glob.glob(os.path.join(os.path.dirname(os.path.abspath(__file__)), "seeded", "*", "meta.json"))):
     m = json.load(open(f))
-    if "second round" not in m.get("author", ""):
+    if "second round" not in m.get("author", "") and "(third round)" not in m.get("needs_to_manifest", ""):
         continue
     det = m["detected_by"]
     missed = det.upper().startswith("MISSED")
@@ -23,7 +23,7 @@ def print(*a):
 print("| seed | what it needs | first result | after strengthening / remark |\n|---|---|---|---|")
 print("\n".join(rows))
 n = len(rows)
-print("\n%d second-round seeds so far; %d missed at first run." % (n, sum(1 for r in rows if "**missed**" in r)))
+print("\n%d second- and third-round seeds; %d missed at first run." % (n, sum(1 for r in rows if "**missed**" in r)))
 
 text = "\n".join(out)
 if "--update-design" in sys.argv:
